@@ -440,15 +440,21 @@ Proof.
   destruct l; simpl; try reflexivity. rewrite no_namelists_allowed in RA. discriminate.
 Qed.
 
+Lemma flat_map_ext_in {A B} (f g : A -> list B) l :
+  (forall x, In x l -> f x = g x) -> flat_map f l = flat_map g l.
+Proof.
+  induction l as [|x l IH]; intros H; [reflexivity|]. simpl.
+  rewrite (H x) by now left. f_equal. apply IH. intros y I. apply H. now right.
+Qed.
+
 Lemma unit_pages_exact c u :
   none_alone (c_display c) -> regular u = true ->
   unit_pages c u = spec_pages_unit c (dset_of (c_display c)) u.
 Proof.
-  intros N R. destruct u as [k a cs]. unfold unit_pages, spec_pages_unit. f_equal.
-  rewrite regular_unfold in R. apply andb_true_iff in R as [_ R].
-  induction cs as [|[l ch] r IH]; [reflexivity|].
-  simpl in R. apply andb_true_iff in R as [R1 R2]. apply andb_true_iff in R1 as [RA RC].
-  simpl flat_map. rewrite (IH R2). f_equal. simpl fst. simpl snd.
+  intros N R. destruct u as [k a cs]. unfold unit_pages, spec_pages_unit. cbv zeta. f_equal.
+  rewrite regular_unfold in R. apply andb_true_iff in R as [_ R]. rewrite forallb_forall in R.
+  apply flat_map_ext_in. intros [l ch] Ic. specialize (R _ Ic). simpl in R.
+  apply andb_true_iff in R as [RA RC]. simpl fst. simpl snd.
   assert (NL : lname_eqb l LNamelists = false).
   { destruct l; try reflexivity. rewrite no_namelists_allowed in RA. discriminate. }
   rewrite NL, (regular_no_namelist_children ch RC).
@@ -475,14 +481,13 @@ Theorem pages_exact : forall c t,
   cfg_ok c = true -> is_file t = true -> regular t = true -> file_display_silent t = true ->
   pages c t = spec_pages c t.
 Proof.
-  intros c [k a cs] C Fi R S. unfold pages, spec_pages. simpl node_children.
+  intros c [k a cs] C Fi R S. unfold pages, spec_pages. simpl node_children. cbv zeta.
   change (a_display a) with (a_display (node_attrs (Node k a cs))).
   rewrite (file_silent_display _ _ S).
-  rewrite regular_unfold in R. apply andb_true_iff in R as [_ R].
-  pose proof (cfg_ok_none_alone c C) as N. clear S Fi.
-  induction cs as [|[l ch] r IH]; [reflexivity|].
-  simpl in R. apply andb_true_iff in R as [R1 R2]. apply andb_true_iff in R1 as [_ RC].
-  simpl. rewrite (IH R2). f_equal. apply unit_pages_exact; auto.
+  rewrite regular_unfold in R. apply andb_true_iff in R as [_ R]. rewrite forallb_forall in R.
+  pose proof (cfg_ok_none_alone c C) as N.
+  apply flat_map_ext_in. intros [l ch] Ic. specialize (R _ Ic). simpl in R.
+  apply andb_true_iff in R as [_ RC]. simpl snd. apply unit_pages_exact; auto.
 Qed.
 
 (* ------------------------------------------------------------------ refutations (witnesses replayed on FORD) *)
@@ -505,6 +510,10 @@ Definition w_common : node :=
 Definition w_namelist : node :=
   file_of [] [(LModules, Node NModule (at_ 2 Private true)
      [(LSubroutines, Node NProc (at_ 3 Private true) [leaf LVariables 4 Private true; leaf LNamelists 5 Private false])])].
+(* private module, `display: public`: its namelist is still listed *)
+Definition w_namelist_module : node :=
+  file_of [] [(LModules, Node NModule (at_ 2 Private true)
+     [leaf LVariables 3 Private true; leaf LNamelists 4 Private false])].
 (* hide_undoc: an undocumented final procedure is still listed *)
 Definition w_final : node :=
   file_of [] [(LModules, Node NModule (at_ 2 Public true)
@@ -522,11 +531,75 @@ Definition w_internals : node :=
      [(LSubroutines, Node NProc (at_ 3 Public true)
         [leaf LVariables 4 Public true; (LEnums, Node NOther (at_ 5 Public true) [leaf LVariables 6 Public true])])])].
 
-Definition refutes (c : cfg) (t : node) (i : nat) (r : nat) : Prop :=
-  cfg_ok c = true /\ is_file t = true /\ well_kinded t = true /\
-  In i (kept_ids c t) <> In i (selected c t) /\
-  (In i (kept_ids c t) <-> ~ In i (selected c t)) /\
-  clean_region c t i = r.
+Definition region_of (c : cfg) (t : node) (i : nat) : nat :=
+  match filter (fun ir => Nat.eqb (fst ir) i) (regions c t) with
+  | (_, r) :: _ => if Nat.eqb (Nat.land r 15) 0 then r else Nat.land r 63
+  | [] => 64
+  end.
 
-Lemma nat_in_dec (i : nat) (l : list nat) : {In i l} + {~ In i l}.
-Proof. apply in_dec. apply Nat.eq_dec. Qed.
+(* FORD keeps entity i although the Spec does not select it (leak = true), or the other way round *)
+Definition refutes (c : cfg) (t : node) (i : nat) (leak : bool) (r : nat) : Prop :=
+  cfg_ok c = true /\ is_file t = true /\ well_kinded t = true /\
+  existsb (Nat.eqb i) (kept_ids c t) = leak /\ existsb (Nat.eqb i) (selected c t) = negb leak /\
+  region_of c t i = r.
+
+Lemma refuted_enum : refutes (cfg_of [WPublic] true false) w_enum 3 true 1.
+Proof. repeat split; vm_compute; reflexivity. Qed.
+Lemma refuted_common : refutes (cfg_of [WPublic; WProtected] true false) w_common 3 true 2.
+Proof. repeat split; vm_compute; reflexivity. Qed.
+Lemma refuted_namelist : refutes (cfg_of [WPublic] true false) w_namelist_module 4 true 4.
+Proof. repeat split; vm_compute; reflexivity. Qed.
+Lemma refuted_final : refutes (cfg_of [WPublic] true true) w_final 4 true 8.
+Proof. repeat split; vm_compute; reflexivity. Qed.
+Lemma refuted_file_display : refutes (cfg_of [WPublic] true false) w_file 3 false 16.
+Proof. repeat split; vm_compute; reflexivity. Qed.
+Lemma refuted_doc_place : refutes (cfg_of [WPublic] true true) w_docplace 3 false 32.
+Proof. repeat split; vm_compute; reflexivity. Qed.
+Lemma refuted_internals_enum : refutes (cfg_of [WPublic] false false) w_internals 5 true 1.
+Proof. repeat split; vm_compute; reflexivity. Qed.
+
+Lemma full_statement_refuted : ~ C05_full_statement.
+Proof.
+  intros H. specialize (H (cfg_of [WPublic] true false) w_enum eq_refl eq_refl eq_refl).
+  vm_compute in H. discriminate.
+Qed.
+
+(* the namelist of a procedure that is not shown still has a page, and stays linkable *)
+Lemma namelist_page_refuted :
+  existsb (Nat.eqb 5) (pages (cfg_of [WPublic] true false) w_namelist) = true /\
+  existsb (Nat.eqb 5) (visible_ids (cfg_of [WPublic] true false) w_namelist) = true /\
+  existsb (Nat.eqb 5) (selected (cfg_of [WPublic] true false) w_namelist) = false.
+Proof. repeat split; vm_compute; reflexivity. Qed.
+
+(* ------------------------------------------------------------------ non-vacuity *)
+
+Definition ex_tree : node :=
+  file_of [WOther]
+    [(LModules, Node NModule (mk_attrs 2 Private true false [WPublic; WPrivate] None)
+       [(LTypes, Node NType (mk_attrs 3 Public true false [WPublic] None)
+           [leaf LVariables 4 Public true; leaf LVariables 5 Private true; leaf LBoundProcs 6 Public false]);
+        (LInterfaces, Node NOther (at_ 7 Private true) [leaf LArgs 8 Private false]);
+        leaf LVariables 9 Protected true;
+        (LSubroutines, Node NProc (mk_attrs 10 Public true false [] (Some false))
+           [leaf LArgs 11 Private true; leaf LVariables 12 Private true]);
+        (LFunctions, Node NProc (at_ 13 Private true)
+           [leaf LVariables 14 Private true; (LSubroutines, Node NProc (at_ 15 Private true) [leaf LVariables 16 Private false])])]);
+     (LProcs, Node NProc (mk_attrs 17 Public false false [WNone] None) [leaf LArgs 18 Public false; leaf LVariables 19 Public true]);
+     (LPrograms, Node NProgram (at_ 20 Public true) [leaf LVariables 21 Public true])].
+
+Example ex_prune_exact :
+  let c := cfg_of [WPublic; WProtected] true true in
+  cfg_ok c = true /\ is_file ex_tree = true /\ well_kinded ex_tree = true /\ regular ex_tree = true /\
+  file_display_silent ex_tree = true /\
+  kept_ids c ex_tree = [1; 2; 3; 4; 7; 8; 10; 11; 13; 14; 15; 17; 18; 20; 21] /\
+  visible_ids c ex_tree = [1; 2; 3; 4; 7; 10; 13; 15; 17; 20] /\
+  pages c ex_tree = [2; 3; 7; 10; 13; 17; 20].
+Proof. repeat split; vm_compute; reflexivity. Qed.
+
+Example ex_display_inherit :
+  none_alone [WPublic; WProtected] /\
+  disp_of false [WPublic; WProtected] [WPrivate; WOther] = [WPrivate; WOther] /\
+  disp_of false [WPublic; WProtected] [WOther] = [WPublic; WProtected] /\
+  disp_of false [WPublic; WProtected] [WPublic; WNone] = [] /\
+  disp_of true [WPublic] [WNone] = [WPublic].
+Proof. split; [intros H; discriminate | repeat split; reflexivity]. Qed.
